@@ -113,7 +113,7 @@ def find_body(repo, rel, sig_regex, name=None, within=None, nth=None):
         ms = list(re.finditer(within, text))
         if len(ms) != 1:
             raise ExtractionBreak('%s: scope /%s/ matched %d times' % (rel, within, len(ms)))
-        b = text.find('{', ms[0].end())
+        b = ms[0].end() - 1 if text[ms[0].end() - 1] == '{' else text.find('{', ms[0].end())
         if b < 0:
             raise ExtractionBreak('%s: scope /%s/ has no body' % (rel, within))
         lo, hi = b, match_brace(text, b)
